@@ -31,7 +31,7 @@ Context (ac wr : bool).
 
 Definition wbook (s s' : storage) : Prop :=
   aid s' = aid s /\ cap s' = cap s /\ slots s' = slots s /\ ents s' = ents s /\
-  created s' = created s /\ destroyed s' = destroyed s.
+  created s' = created s /\ destroyed s' = destroyed s /\ version s' = version s.
 
 Definition same_book (s s' : storage) : Prop := wbook s s' /\ cols s' = cols s.
 
@@ -41,13 +41,13 @@ Definition mono_book (s s' : storage) : Prop :=
   aid s' = aid s /\ cap s' = cap s /\ ents s' = ents s /\
   (forall k x, slots s !! k = Some x -> exists x', slots s' !! k = Some x' /\ s_idx x' = s_idx x /\ (s_ver x <= s_ver x')%N) /\
   ((created s' = created s /\ destroyed s' = destroyed s) \/ (ac = true /\ created s' = [] /\ destroyed s' = [])) /\
-  (wr = true \/ cols s' = cols s).
+  (wr = true \/ cols s' = cols s) /\ (version s <= version s')%N.
 
 Lemma same_book_mono s s' : same_book s s' -> mono_book s s'.
-Proof. intros [(A & B & C & D & E & F) G]. split_and!; try done; [|by left|by right]. intros k x Hx. exists x. rewrite C. split_and!; [done|done|lia]. Qed.
+Proof. intros [(A & B & C & D & E & F & V) G]. split_and!; try done; [|by left|by right|lia]. intros k x Hx. exists x. rewrite C. split_and!; [done|done|lia]. Qed.
 
 Lemma wbook_mono s s' : wr = true -> wbook s s' -> mono_book s s'.
-Proof. intros Hwr (A & B & C & D & E & F). split_and!; try done; [|by left|by left]. intros k x Hx. exists x. rewrite C. split_and!; [done|done|lia]. Qed.
+Proof. intros Hwr (A & B & C & D & E & F & V). split_and!; try done; [|by left|by left|lia]. intros k x Hx. exists x. rewrite C. split_and!; [done|done|lia]. Qed.
 
 Inductive estep (cfg : config) : storage -> storage -> Prop :=
   | es_push s vs s' h : length vs = length (cols s) -> push cfg s vs = Ok s' h -> estep cfg s s'
@@ -272,7 +272,7 @@ Qed.
 
 Lemma same_book_refl s : same_book s s. Proof. done. Qed.
 Lemma wbook_trans s1 s2 s3 : wbook s1 s2 -> wbook s2 s3 -> wbook s1 s3.
-Proof. intros (A1 & A2 & A3 & A4 & A5 & A6) (B1 & B2 & B3 & B4 & B5 & B6). split_and!; congruence. Qed.
+Proof. intros (A1 & A2 & A3 & A4 & A5 & A6 & A7) (B1 & B2 & B3 & B4 & B5 & B6 & B7). split_and!; congruence. Qed.
 Lemma same_book_trans s1 s2 s3 : same_book s1 s2 -> same_book s2 s3 -> same_book s1 s3.
 Proof. intros [A A'] [B B']. split; [by eapply wbook_trans|congruence]. Qed.
 
@@ -451,9 +451,9 @@ Qed.
 
 (** Presetting the generation counters (test hook) is a transition when it does not lower any slot generation. *)
 Lemma preset_esteps cfg s sv av s' : Inv s -> in_ver sv -> in_ver av -> preset_versions s sv av = Ok s' tt ->
-  forallb (fun x => (s_ver x <=? sv)%N) (slots s) = true -> esteps cfg s s'.
+  forallb (fun x => (s_ver x <=? sv)%N) (slots s) && (version s <=? av)%N = true -> esteps cfg s s'.
 Proof.
-  intros HI Hsv Hav Hp Hall. destruct (preset_versions_inv s sv av s' HI Hsv Hav Hp) as (HI' & _).
+  intros HI Hsv Hav Hp Hall. apply andb_true_iff in Hall as [Hall Hver%N.leb_le]. destruct (preset_versions_inv s sv av s' HI Hsv Hav Hp) as (HI' & _).
   apply esteps_one, es_same; [done|]. unfold preset_versions in Hp.
   destruct (negb (len s =? 0) || N.eqb sv 0 || N.eqb av 0); [done|]. destruct (negb (cap s <=? length (slots s))); [done|].
   injection Hp as <-. split_and!; try done; [|by left|by right]. cbn [slots]. intros k x Hx. exists (Slot (s_idx x) sv).
@@ -662,7 +662,7 @@ Qed.
 Lemma write_col_esteps cfg ad s col i v s' : wr = true -> SInv ad s -> write_col s col i v = Some s' -> esteps cfg s s'.
 Proof.
   intros Hwr HS Hw. eapply wbook_esteps; [done|by eapply write_col_SInv|].
-  destruct (write_col_spec s col i v s' Hw) as (_ & _ & He & Hs & _ & Hc & _ & _ & Ha & Hcr & Hde & _). done.
+  destruct (write_col_spec s col i v s' Hw) as (_ & _ & He & Hs & _ & Hc & Hv & _ & Ha & Hcr & Hde & _). done.
 Qed.
 
 Lemma step_write_trans cfg d qs st p b k t r c v : wr = true -> wf_href r -> RInv d st ->
@@ -789,7 +789,7 @@ Proof. destruct o; cbn; auto. Qed.
 
 Lemma estep_weaken ac wr cfg s s' : estep ac wr cfg s s' -> estep true true cfg s s'.
 Proof.
-  intros [s0 vs s1 h Hvs Hp|s0 vs s1 h Hvs Hp|s0 k h s1 row Hk Hd|s0 s1 HI' (A & B & C & D & E & F)].
+  intros [s0 vs s1 h Hvs Hp|s0 vs s1 h Hvs Hp|s0 k h s1 row Hk Hd|s0 s1 HI' (A & B & C & D & E & F & V)].
   - by eapply es_push.
   - by eapply es_pushw.
   - by eapply es_destroy.
